@@ -110,12 +110,15 @@ Definition check_resolved := mismatches resolved_ok.
 Definition model_resolved (g : graph) (kinds : nat -> ekind) : nat -> list edata :=
   fun s => match resolved_exports g kinds s with Some l => l | None => [] end.
 
-Definition import_obs_ok (r : mres) (q : Z * Z * Z * Z * Z * Z * Z) : bool :=
+(* [gen]: the import item was generated by the parser from a property access on a
+   namespace import; its symbol carries a NamespaceAlias from parsing on, so only the
+   binding is an output of the linker *)
+Definition import_obs_ok (gen : bool) (r : mres) (q : Z * Z * Z * Z * Z * Z * Z) : bool :=
   let '(ref, bsrc, bref, nsrc, nref, nalias, missing) := q in
   let bound := match mr_kind r with MNormal | MNormalNS => true | _ => false end in
   let ns := match mr_kind r with MNamespace | MNormalNS => true | _ => false end in
   (if bound then (Z.of_nat (mr_src r) =? bsrc) && (Z.of_nat (mr_ref r) =? bref) else bsrc =? -1)
-  && (if ns then match mr_ns r with
+  && (if gen then true else if ns then match mr_ns r with
                  | Some (s, n) => (Z.of_nat s =? nsrc) && (Z.of_nat n =? nref) && (mr_alias r =? nalias)
                  | None => false end
       else nsrc =? -1).
@@ -143,7 +146,9 @@ Definition match_ok (c : case) : bool :=
                    let ok' := Nat.eqb (length rs) (length (snd p)) &&
                               forallb (fun q => let '(ref, _, _, _, _, _, _) := q in
                                          match find (fun x => Nat.eqb (fst x) (zn ref)) rs with
-                                         | Some (_, r) => import_obs_ok r q
+                                         | Some (_, r) =>
+                                           import_obs_ok (match find_imp (zn ref) (m_imports (getm g (zn (fst p)))) with
+                                                          | Some ni => ni_generated ni | None => false end) r q
                                          | None => false end) (snd p) in
                    Some (ok && ok', evs ++ map ev_z ev)
                  end
